@@ -194,7 +194,12 @@ def _loads_xml(string):
 
     ud_dict = data["body"]["segment"]["data"].get("userDefinedParameters", {})
 
-    for field in ud_dict.get("USER_DEFINED", []):
+    # xml2dict gives a single Field instead of a list for a single element
+    fields = ud_dict.get("USER_DEFINED", [])
+    if not isinstance(fields, list):
+        fields = [fields]
+
+    for field in fields:
         ud = orb._data.setdefault("ccsds_user_defined", {})
         ud[field.attrib["parameter"]] = field.text
 
